@@ -276,7 +276,7 @@ class CallMixin:
         if self.is_log_call(f):
             self.dropped.add('logging/warning calls')
             return [(st, VNone())]
-        if isinstance(f, ast.Name) and self.spec_mode and f.id in ('old', 'implies', 'forall', 'exists', 'iff', 'head', 'cur'):
+        if isinstance(f, ast.Name) and self.spec_mode and f.id in ('old', 'implies', 'forall', 'exists', 'iff', 'head', 'cur', 'is_new'):
             return self.spec_call(st, e)
         if isinstance(f, ast.Name):
             h = getattr(self, 'b_' + f.id, None)
@@ -400,6 +400,13 @@ class CallMixin:
             aty = self.reg.field_type(key, 'args')
             if aty is not None:
                 self.write_field(st, v, 'args', aty, VTuple(list(args)))
+            init = self.find_method(key, '__init__')
+            if init is not None:
+                # exception classes of the repository with their own __init__ (e.g. ContinueException(block1))
+                out = []
+                for s2, _ in self.call_repo(st, init, [v] + list(args), kwargs, node):
+                    out.append((s2, v if s2.exc is None else None))
+                return out
             return [(st, v)]
         if pc is not None:
             import enum
@@ -418,6 +425,11 @@ class CallMixin:
                 return self.call_external(st, 'builtins.tuple', args, kwargs, node)
             if pc is list:
                 return self.call_external(st, 'builtins.list', args, kwargs, node)
+            if pc is set and not args:
+                ty = self.hint_type(node)
+                if ty is None:
+                    self.unsupported(node, 'set() without declared element type (add `hints`)')
+                return [(st, self.new_dict(st, ty[1], ty[2], ty[3] if len(ty) > 3 else None))]
             if pc is object and not args:
                 return [(st, self.new_object(st, 'builtins:object'))]
             if pc is str:
@@ -726,6 +738,14 @@ class CallMixin:
             for f in res[0][0].pc[len(old_st.pc):]:
                 st.assume(f)
             return [(st, res[0][1])]
+        if name == 'is_new':
+            # is_new(x): the object was allocated during the call (postconditions only)
+            if old_st is None:
+                self.unsupported(e, 'is_new() outside a postcondition')
+            (s, v), = self.eval(st, e.args[0])
+            if isinstance(v, VOpt):
+                return [(st, VBool(z3.And(z3.Not(v.is_none()), v.some().t >= old_st.alloc)))]
+            return [(st, VBool(v.t >= old_st.alloc))]
         if name == 'cur':
             # value of an expression over the *current* locals of the function under verification
             fin = getattr(self, 'cur_final', None)
@@ -785,8 +805,8 @@ class CallMixin:
             return [(st, VBool(z3.Exists([x], z3.And(rng, body))))]
         self.unsupported(e, 'spec call')
 
-    def havoc(self, st, spec, env, info, node):
-        """havoc one `modifies` entry"""
+    def havoc(self, st, spec, env, info, node, pre=None):
+        """havoc one `modifies` entry (its location expression is evaluated in the pre-state `pre`)"""
         if spec == '*':
             for k in list(st.heap.keys()):
                 self.heap_set(st, k, z3.Const(fresh_name('H:' + ':'.join(map(str, k))), st.heap[k].sort()))
@@ -809,15 +829,16 @@ class CallMixin:
         elif spec.startswith('list:'):
             kind, text = 'list', spec[5:]
         tree = ast.parse(text, mode='eval').body
-        fid = self.spec_frame(st, env, info)
-        save = st.cur
-        st.cur = fid
+        loc = pre.copy() if pre is not None else st
+        fid = self.spec_frame(loc, env, info)
+        save = loc.cur
+        loc.cur = fid
         self.spec_mode += 1
         try:
             if kind == 'field':
                 if not isinstance(tree, ast.Attribute):
                     self.unsupported(node, 'modifies entry %s' % spec)
-                (s, base), = self.eval(st, tree.value)
+                (s, base), = self.eval(loc, tree.value)
                 if isinstance(base, VOpt):
                     base = base.some()
                 ty = self.field_type(node, base, tree.attr)
@@ -825,20 +846,24 @@ class CallMixin:
                 arr = self.heap_get(st, key, z3.ArraySort(I, sort_of(ty)))
                 self.heap_set(st, key, z3.Store(arr, base.t, fresh(ty, 'hv_' + tree.attr)))
             else:
-                (s, v), = self.eval(st, tree)
+                (s, v), = self.eval(loc, tree)
+                absent = None
                 if isinstance(v, VOpt):
+                    absent = v.is_none()         # `dict:x` where x is None: nothing to modify
                     v = v.some()
                 if kind == 'dict':
                     kd, dd = self._dd(st, v)
                     kv, dv = self._dv(st, v)
-                    self.heap_set(st, kd, z3.Store(dd, v.t, z3.Const(fresh_name('hv_dom'), z3.ArraySort(sort_of(v.k), Bo))))
-                    self.heap_set(st, kv, z3.Store(dv, v.t, z3.Const(fresh_name('hv_val'), z3.ArraySort(sort_of(v.k), sort_of(v.v)))))
+                    nd = z3.Store(dd, v.t, z3.Const(fresh_name('hv_dom'), z3.ArraySort(sort_of(v.k), Bo)))
+                    nv = z3.Store(dv, v.t, z3.Const(fresh_name('hv_val'), z3.ArraySort(sort_of(v.k), sort_of(v.v))))
+                    self.heap_set(st, kd, nd if absent is None else z3.If(absent, dd, nd))
+                    self.heap_set(st, kv, nv if absent is None else z3.If(absent, dv, nv))
                 else:
                     self.list_store(st, v, z3.Int(fresh_name('hv_len')), z3.Const(fresh_name('hv_arr'), z3.ArraySort(I, sort_of(v.e))))
         finally:
             self.spec_mode -= 1
-            st.cur = save
-            st.frames.pop(fid, None)
+            loc.cur = save
+            loc.frames.pop(fid, None)
 
     def apply_contract(self, st, c, info, bound, node):
         self.used_contracts.add(c.target)
@@ -850,7 +875,11 @@ class CallMixin:
             self.check(st, g, '%s/call:%s/requires[%d]' % (caller, info.qualname, i), note=str(r))
         old = st.copy()
         for m in c.modifies:
-            self.havoc(st, m, env, info, node)
+            self.havoc(st, m, env, info, node, pre=old)
+        # the callee may have allocated objects: anything it returns or stores is below the new allocation mark
+        a = z3.Int(fresh_name('alloc'))
+        st.assume(a >= st.alloc)
+        st.alloc = a
         result = VNone()
         if c.result is not None:
             result = self.fresh_val(st, c.result, 'ret_' + info.node.name)
